@@ -45,8 +45,9 @@ CaretOK(toks, bad, msg) ==
 
 \* illegal-character message of the lexer: the single caret sits under the offending character
 LexCaretOK(ch, msg) ==
-  LET pl == msg.lines[Len(msg.lines)] IN
-  /\ msg.carets = 1 /\ msg.dashes >= 1 /\ msg.dashes <= Len(pl) /\ pl[msg.dashes] = ch
+  /\ Len(msg.lines) >= 1                       \* the line of the character is reproduced (also when it is the first of several)
+  /\ LET pl == msg.lines[Len(msg.lines)] IN
+     /\ msg.carets = 1 /\ msg.dashes >= 1 /\ msg.dashes <= Len(pl) /\ pl[msg.dashes] = ch
 
 (* ---- transcription of error_location ---- *)
 LineUpd(line, t) ==
